@@ -173,6 +173,8 @@ class SchedDevice:
 
     def __init__(self, dev, sched):
         self.d, self.s = dev, sched
+        self.guard = None              # an SLock: every write of a scheduled thread is expected to happen while that thread owns it
+        self.unguarded = []            # (thread, device position) of writes that did not
 
     def seek(self, *a):
         self.s.yield_point("seek")
@@ -184,6 +186,9 @@ class SchedDevice:
 
     def write(self, data):
         self.s.yield_point("write")
+        tid = self.s.me()
+        if self.guard is not None and tid is not None and self.guard.owner != tid and len(self.unguarded) < 50:
+            self.unguarded.append((tid, self.d.tell()))
         return self.d.write(data)
 
     def __getattr__(self, k):
